@@ -576,6 +576,18 @@ def parseBankdef : Nat → Src → Except String (AstNode × Src)
           let (size, fs) := extractField fs "size"
           let (outp, fs) := extractField fs "outp"
           let (fill, fs) := extractField fs "fill"
+          -- `fill` alone, or `fill = true` / `fill = false` (finding F65, repaired: any value meant true)
+          let fillV : Except String Bool :=
+            match fill with
+            | none => .ok false
+            | some f =>
+              match f.expr with
+              | none => .ok true
+              | some (.lit (.bool b)) => .ok b
+              | some _ => .error "expected boolean literal"
+          match fillV with
+          | .error e => .error e
+          | .ok fillB =>
           match fs with
           | f :: _ => .error s!"invalid field `{f.name}`"
           | [] =>
@@ -586,7 +598,7 @@ def parseBankdef : Nat → Src → Except String (AstNode × Src)
               | .error e => .error e
               | .ok s =>
                 let ex (f : Option Field) : Option Expr := f.bind (·.expr)
-                .ok (.bankdef ⟨String.ofList tk.text, ex bits, ex la, ex addr, ex addrEnd, ex size, ex outp, fill.isSome⟩, s)
+                .ok (.bankdef ⟨String.ofList tk.text, ex bits, ex la, ex addr, ex addrEnd, ex size, ex outp, fillB⟩, s)
 
 def parseFn : Nat → Src → Except String (AstNode × Src)
   | 0, _ => .error fuelErr
